@@ -59,6 +59,7 @@ static Plan c18_gen(uint64_t seed, int tier, uint64_t index) {
     int n = (int) r.below(5);
     for (int i = 0; i < n; i++) { p.ops.push_back(Op("send", (int64_t) r.below(2), LENS[r.below(sizeof LENS / sizeof LENS[0])], (int64_t) r.below(2))); if (r.chance(1, 2)) { p.ops.push_back(Op("pump")); } }
     if (r.chance(1, 2)) { p.ops.push_back(Op("close", (int64_t) r.below(2))); }
+    if (r.chance(1, 3)) { p.cfg["eager"] = 1; }
     p.cfg["part_c"] = (int64_t) (1 + r.below(PART_N - 1)); p.cfg["part_s"] = (int64_t) (1 + r.below(PART_N - 1));
     p.cfg["drain_c"] = (int64_t) r.below(DRAIN_N); p.cfg["drain_s"] = (int64_t) r.below(DRAIN_N);
     return p;
@@ -163,7 +164,23 @@ static RunResult c18_exec(const Plan &p) {
             };
             if (!w.connect()) { res.harness_error = true; res.detail = "connect failed"; break; }
             ConnLog c; c.cfg[0] = w.cli->cfg; c.cfg[1] = w.srv->cfg;
-            w.handshake();
+            bool eager = last && p.get("eager") != 0;
+            size_t eager_ops = 0;
+            if (eager) {
+                // the client application writes the moment its side reports completion - before its last flight has left the output
+                // buffer - so the data is coalesced with (TLS 1.3 / resumed) Finished and reaches the server without a causality barrier in between
+                for (int step = 0; step < 400; step++) {
+                    bool moved = w.pump_once();
+                    if (w.cli->is_complete() && !eager_ops) {
+                        int idx = 0;
+                        for (auto &op : p.ops) { if (op.k == "send" && (op.a & 1) == 0) { Bytes pl = tagged_payload(0, 100 + idx++, (size_t) op.b); w.cli->app_send(pl.data(), pl.size(), op.c & 1); eager_ops++; if (eager_ops >= 2) { break; } } }
+                        if (!eager_ops) { Bytes pl = tagged_payload(0, 100, 37); w.cli->app_send(pl.data(), pl.size()); eager_ops = 1; }
+                        res.count("probe.eager_client_send");
+                    }
+                    if (!moved && w.cli->is_complete() && w.srv->is_complete()) { break; }
+                    if (!moved) { break; }
+                }
+            } else { w.handshake(); }
             if (last) {
                 int idx = 0;
                 for (auto &op : p.ops) {
